@@ -17,7 +17,7 @@ from mc import kf
 
 PROPERTY = 'C14'
 LEVEL = 'model_checking'
-CASE_GUARD_S = 3600  # a case is a composite (one block of expressions x all texts ...)
+CASE_GUARD_S = {'quick': 300, 'thorough': 3600}  # a case is a composite (a block of expressions x all texts, ...)
 CHUNK = 4
 RULE = ('source kind {constant string, here-document, file, program output} x model frozen before transformation {no, yes} x transformer chain '
         '(none, identity, char-case, filter constant true, replace, run cat, strip variants, filter -line-nums 2:, pairs of these) x every sequence of '
